@@ -14,14 +14,14 @@ CLASSES = ("key-collision", "cached-negative", "header-shadowed", "skipped-rule-
 # a backend deleted / created / replaced behind the mapper between two requests for one URL), so that every history
 # shape the cache is sensitive to occurs often
 UNIVERSES = (
-    (0.13, "C12SimReqs", "C12SimTemplates", "C12SimShells", "C12SimServerFilters", "PlansC12", 0),
-    (0.11, "C12ReqsA", "C12HdrFocus", "C12FocusShells", "C12NoServerFilter", "PlansHdrFocus", 0),
-    (0.11, "C12ReqsA", "C12RuleFocus", "C12FocusShells", "C12NoServerFilter", "PlansRuleFocus", 0),
+    (0.12, "C12SimReqs", "C12SimTemplates", "C12SimShells", "C12SimServerFilters", "PlansC12", 0),
+    (0.10, "C12ReqsA", "C12HdrFocus", "C12FocusShells", "C12NoServerFilter", "PlansHdrFocus", 0),
+    (0.10, "C12ReqsA", "C12RuleFocus", "C12FocusShells", "C12NoServerFilter", "PlansRuleFocus", 0),
     (0.09, "C05FocusReqs", "C12FilterFocus", "C05FocusShells", "C12SimServerFilters", "PlansFilterFocus", 0),
     (0.12, "C12MethReqs", "C12MethFocus", "C12FocusShells", "C12NoServerFilter", "PlansMethFocus", 0),
     (0.10, "C12RwReqs", "C12RwFocus", "C12FocusShells", "C12NoServerFilter", "PlansRwFocus", 0),
     (0.06, "C12ShareReqs", "C12ShareFocus", "C12ShareShells", "C12NoServerFilter", "PlansShareFocus", 0),
-    (0.09, "C12TenantReqs", "C12TenantFocus", "C12TenantShells", "C12NoServerFilter", "PlansTenantFocus", 0),
+    (0.12, "C12TenantReqs", "C12TenantFocus", "C12TenantShells", "C12NoServerFilter", "PlansTenantFocus", 0),
     (0.09, "C12HdrKeyReqs", "C12HdrKeyFocus", "C12HdrKeyShells", "C12NoServerFilter", "PlansHdrKeyFocus", 0),
     (0.10, "C12MapReqs", "C12MapFocus", "C12MapShells", "C12NoServerFilter", "PlansMapFocus", 3))
 
@@ -29,14 +29,19 @@ UNIVERSES = (
 def run(ctx):
     ctx.cov["rule"] = ("states = TLC check of Transparent (cached search = cache-less reference after any history and any evictions) on the "
                        "implementation-shaped router for the repaired cache design; behaviours = TLC -simulate runs (configurations with "
-                       "header-conditioned entries, method lists, IP filters at three levels; requests incl. colliding host/method pairs; "
-                       "purges) replayed on a real mux with the cache on (sizes 1,2,3,64) and its cache-less twin, outcome compared with "
+                       "header-conditioned entries on one or two headers, method lists, IP filters at three levels, rules for different "
+                       "hosts with different filters; requests incl. colliding host/method pairs and header values that collide once "
+                       "folded into one string; purges; a backend deleted, created or replaced behind the mapper between two requests) "
+                       "replayed on a real mux with the cache on (sizes 1,2,3,64) and its cache-less twin, outcome compared with "
                        "the contract after every request; traces = seeded random configurations with sequences of 20-200 requests over a "
-                       "small key space, both muxes recorded and validated by TLC; non-trivial = distinct (class of cached outcome, "
+                       "small key space and changes of the mapper's table in between, both muxes recorded and validated by TLC; non-trivial = distinct (class of cached outcome, "
                        "request relation to an earlier one) cases in which the cached mux could have answered from its cache")
     ctx.assumptions += ["regular expressions restricted to the family of specs/Strings.tla", "requests driven in-process through mux.ServeHTTP, one at a time",
                         "the ARC replacement policy is abstracted to 'any entry may disappear at any time'",
-                        "client address unambiguous (RemoteAddr, or a single public X-Forwarded-For / X-Real-IP value)"]
+                        "client address unambiguous (RemoteAddr, or a single public X-Forwarded-For / X-Real-IP value)",
+                        "'chosen backend' read at the time of the request: the backend instance registered under the matched name in the "
+                        "table behind the MuxMapper when the request is served (the table changes without a reload of the server); the "
+                        "cache-less server looks it up per request, so must the cached one"]
     R.run_phases(ctx, (("mc", _mc), ("mbt", _mbt), ("tv", _tv)))
 
 
@@ -80,6 +85,9 @@ def classify(q, cul, own, cown, exp, got, cfg=None, mapsteps=None):
         return "key-collision" if "".join(tp) == "".join(tq) else "foreign-cache-entry"
     if got.get("code") in (404, 405):
         return "cached-negative"
+    if p.get("hdr") != q.get("hdr") and _folded(p) & _folded(q):
+        # same URL, other header values - which read the same once folded into one string
+        return "folded-header-values"
     if own is not None and cown is not None and own != cown:
         return "header-shadowed"
     if exp.get("code") == 403 and got.get("code") == 0:
